@@ -30,6 +30,14 @@ class Unsupported(Exception):
     pass
 
 
+class RetryLayout(Exception):
+    """a later return path yields an optional number where an earlier one fixed a plain number:
+    translate again with those result positions lifted to `option` (lift_opt)"""
+    def __init__(self, positions):
+        Exception.__init__(self, 'retry with optional results at %s' % sorted(positions))
+        self.positions = set(positions)
+
+
 class _PromoteAcc(Exception):
     pass
 
@@ -127,7 +135,7 @@ class Kernel:
     def coq_type(self, kind):
         return {'num': 'T O', 'int': 'Z', 'bool': 'bool', 'str': 'string',
                 'list': 'list (T O)', 'list2': 'list (list (T O))', 'intlist': 'list Z',
-                'fun': 'T O -> T O'}[kind]
+                'fun': 'T O -> T O', 'optnum': 'option (T O)'}[kind]
 
     def bind_kind_ok(self, kind):
         return kind in ('num', 'int', 'bool', 'str', 'list', 'list2', 'intlist', 'idx2')
@@ -279,6 +287,11 @@ class Kernel:
         if a.kind != b.kind:
             if {a.kind, b.kind} <= {'num', 'int'}:
                 return V('num', f'(if {c} then {self.to_num(a)} else {self.to_num(b)})')
+            if {a.kind, b.kind} <= {'num', 'int', 'none', 'optnum'}:
+                # `x if cond else None`: an optional number (kind optnum, Coq type option (T O))
+                def opt(v):
+                    return 'None' if v.kind == 'none' else (v.coq if v.kind == 'optnum' else app('Some', self.to_num(v)))
+                return V('optnum', f'(if {c} then {opt(a)} else {opt(b)})')
             raise Unsupported(f'if-merge of {a.kind} and {b.kind}')
         return V(a.kind, f'(if {c} then {a.coq} else {b.coq})')
 
@@ -736,6 +749,16 @@ class Kernel:
                 v = env[d]
             outs.append(v)
             layout.append((d, v.kind))
+        lift = getattr(self, 'lift_opt', set())
+        for i in lift:
+            if i < len(outs) and outs[i].kind in ('num', 'int'):
+                outs[i] = V('optnum', app('Some', self.to_num(outs[i])))
+                layout[i] = (layout[i][0], 'optnum')
+        if self.out_layout is not None:
+            need = {i for i, ((lab, k0), v) in enumerate(zip(self.out_layout, outs))
+                    if k0 in ('num', 'int') and v.kind == 'optnum'}
+            if need:
+                raise RetryLayout(need | lift)
         if self.out_layout is None:
             self.out_layout = layout
         else:
@@ -747,6 +770,8 @@ class Kernel:
                         fixed.append(V('num', self.to_num(v)))
                     elif k0 == v.kind:
                         fixed.append(v)
+                    elif k0 == 'optnum' and v.kind in ('num', 'int'):
+                        fixed.append(V('optnum', app('Some', self.to_num(v))))
                     else:
                         raise Unsupported(f'return kinds differ between paths: {self.out_layout} vs {layout}')
                 outs = fixed
@@ -1195,7 +1220,17 @@ def translate_module(modname, specs, src_root, registry=None):
         registry[spec['name']] = k
         k.coq_text = None
         try:
-            txt = k.translate()
+            for _attempt in range(4):
+                try:
+                    txt = k.translate()
+                    break
+                except RetryLayout as r:
+                    k = spec.get('kclass', Kernel)(spec, registry, src_root)
+                    k.lift_opt = r.positions
+                    registry[spec['name']] = k
+                    k.coq_text = None
+            else:
+                raise Unsupported('optional-result layout did not stabilise')
             out.append(txt)
             manifests.append(k.manifest())
         except Unsupported as e:
